@@ -5,9 +5,12 @@
 (* by the extended-range reference, rescale flag after the call, accuracy  *)
 (* of every returned value) stepped through Rescale.Eval.  Total           *)
 (* validation: the first failing clause is reported per trace.             *)
-(*   Accurate / FiniteIfTrue / Sticky : clauses of the property            *)
-(*   bind:flag                        : the flag does not follow the       *)
-(*                                      specified switching policy         *)
+(*   Accurate / FiniteIfTrue   : clauses of the property (every later      *)
+(*                               evaluation stays consistent with the      *)
+(*                               reference)                                *)
+(*   bind:sticky-flag, bind:flag : the flag does not follow the specified  *)
+(*                               switching policy (model drift, not a      *)
+(*                               violation: only values are observable)    *)
 (***************************************************************************)
 EXTENDS Rescale, Sequences, Json, IOUtils
 
@@ -24,7 +27,7 @@ TEval == /\ l <= Len(Traces[tid])
          /\ LET B == AsSet(Ev.classes)
                 specFlag == rescale \/ Triggers(B)
                 res == AsSet(Ev.results)
-                f == First(<< <<"Sticky", rescale => Ev.flag>>,
+                f == First(<< <<"bind:sticky-flag", rescale => Ev.flag>>,
                               <<"FiniteIfTrue", "-inf" \notin res>>,
                               <<"Accurate", "lossy" \notin res>>,
                               <<"bind:flag", Ev.flag = specFlag>> >>)
